@@ -34,6 +34,17 @@ func verifH_C08_disk() {
 	ct := verifCreateStmt("t", verifStdCols)
 	ct.Elements[2].ColumnDefinition.DataType = sql.CharacterStringType{Len: int64(decl), Type: sql.T_VARCHAR}
 	verifAssert(EvaluateCreateTable(ct, rs) == nil, "create")
+	// pre=1: a row with a value in every column is stored (and scanned) before the row under test
+	var before [][]interface{}
+	if verifParam("pre", 0) == 1 {
+		first := []interface{}{int64(verifI32("pa")), verifI64("pb"), verifString("ps", slen), verifBool("pf")}
+		_, err := EvaluateInsert(verifInsertStmt("t", nil, [][]interface{}{first}), rs)
+		verifAssert(err == nil, "insert-ok")
+		before = append(before, first)
+	}
+	all := func(row []interface{}) [][]interface{} {
+		return append(append([][]interface{}(nil), before...), row)
+	}
 	row := []interface{}{int64(verifI32("a")), verifI64("b"), verifString("s", slen), verifBool("f")}
 	if k := verifChoice("null", 5); k > 0 {
 		row[k-1] = nil
@@ -42,11 +53,11 @@ func verifH_C08_disk() {
 	if slen > decl && err != nil {
 		// a string longer than the declared length may be refused (today it is
 		// accepted and stored in full); refused means nothing is stored
-		verifExpectRows(rs, nil, "refused/")
+		verifExpectRows(rs, before, "refused/")
 		return
 	}
 	verifAssert(err == nil, "insert-ok")
-	verifExpectRows(rs, [][]interface{}{row}, "cached/")
+	verifExpectRows(rs, all(row), "cached/")
 	step := verifChoice("then", 3)
 	if step >= 1 {
 		// in-place update with new symbolic values
@@ -55,13 +66,16 @@ func verifH_C08_disk() {
 			Set: []sql.SetClause{{ObjectColumn: "b", UpdateSource: nb}, {ObjectColumn: "s", UpdateSource: ns}}}, rs)
 		verifAssert(err == nil, "update-ok")
 		row = []interface{}{row[0], nb, ns, row[3]}
-		verifExpectRows(rs, [][]interface{}{row}, "updated/")
+		for i := range before {
+			before[i] = []interface{}{before[i][0], nb, ns, before[i][3]}
+		}
+		verifExpectRows(rs, all(row), "updated/")
 	}
 	// written to disk, evicted (fresh store = cold cache), reloaded
 	verifAssert(storage.VerifFlush(rs) == nil, "flush-ok")
 	storage.VerifAbandon(rs)
 	rs2 := verifOpenDB(0)
-	verifExpectRows(rs2, [][]interface{}{row}, "reloaded/")
+	verifExpectRows(rs2, all(row), "reloaded/")
 	if step == 2 {
 		// one more change that lives only in the log, then a crash
 		nb2 := verifI64("nb2")
@@ -69,10 +83,13 @@ func verifH_C08_disk() {
 			Set: []sql.SetClause{{ObjectColumn: "b", UpdateSource: nb2}}}, rs2)
 		verifAssert(err == nil, "update2-ok")
 		row = []interface{}{row[0], nb2, row[2], row[3]}
+		for i := range before {
+			before[i] = []interface{}{before[i][0], nb2, before[i][2], before[i][3]}
+		}
 	}
 	rs3 := verifRecover(rs2, "restart/")
 	if rs3 != nil {
-		verifExpectRows(rs3, [][]interface{}{row}, "restart/")
+		verifExpectRows(rs3, all(row), "restart/")
 	}
 	verifReach("end")
 }
